@@ -687,6 +687,13 @@ def value_attr(it, obj, attr):
             return getattr(obj.node, "name", "<lambda>")
         if attr == "__doc__":
             return ast.get_docstring(obj.node) if not isinstance(obj.node, ast.Lambda) else None
+    if isinstance(obj, _TypeProxy) and obj.pytype in (str, int, float) and callable(getattr(obj.pytype, attr, None)):
+        # unbound method of a builtin type (str.isdigit, str.lower, ...): concrete receivers only
+        def unbound(x, *a, _t=obj.pytype, _n=attr, **k):
+            if not isinstance(x, _t) or isinstance(x, bool) and _t is not bool:
+                raise Undecided(f"{_t.__name__}.{_n} on {x!r}")
+            return getattr(_t, _n)(x, *a, **k)
+        return unbound
     if hasattr(obj, attr) and not isinstance(obj, (BoundMethod,)):
         return getattr(obj, attr)
     raise Undecided(f"attribute {attr} of {type(obj).__name__}")
